@@ -4136,11 +4136,11 @@ give_to_app:
       goto cache_lg_crcv;
 fail_resp:
       /*
-       * The body cannot be completed.  When libcoap is re-assembling the
-       * body the application must not take this block for the body.
+       * The body cannot be completed.  The application must not take this
+       * block for the body (COAP_BLOCK_SINGLE_BODY) or for a block at
+       * offset 0 (body_offset is not set on this path).
        */
-      if ((session->block_mode & COAP_BLOCK_SINGLE_BODY) &&
-          COAP_RESPONSE_CLASS(rcvd->code) == 2)
+      if (COAP_RESPONSE_CLASS(rcvd->code) == 2)
         rcvd->code = COAP_RESPONSE_CODE(408);
 cache_lg_crcv:
       /* lg_crcv no longer required - cache it for 1 sec */
